@@ -5,6 +5,7 @@
 import Lean.Data.Json
 import Snmp.Model.UsmParams
 import Snmp.Model.V3Glue
+import Snmp.Model.Reenc
 import Snmp.Model.Basic
 import Snmp.Model.Py
 import Snmp.Model.Types
@@ -717,6 +718,20 @@ def usmOutgoing (j : Json) : Except String Json := do
       ("scoped", match Emit.scopedBytes (Usm.baseParams c disco (← bytesOfJson (← j.getObjVal? "ctx_engine")) (← bytesOfJson (← j.getObjVal? "ctx_name")) r) r with
         | some sb => toJson (toHex sb) | none => Json.null)])
 
+/-- `bytes(X.decode(data))` for X = Message / ScopedPDU / USMSecurityParameters -/
+def reencOp (j : Json) : Except String Json := do
+  let data ← bytesOfJson (← j.getObjVal? "data")
+  let what ← j.getObjValAs? String "what"
+  let fuel := data.length + 16
+  let r ← match what with
+    | "msg" => pure (Reenc.reencMsg data fuel)
+    | "scoped" => pure (Reenc.reencScoped data fuel)
+    | "usm" => pure (Reenc.reencUsm data fuel)
+    | _ => throw s!"bad-op reenc {what}"
+  match r with
+  | .ok b => pure (toJson (#[toJson "ok", toJson (toHex b)] : Array Json))
+  | .error e => pure (toJson (#[toJson "error", errToJson e] : Array Json))
+
 def handle (j : Json) : Except String Json := do
   let op ← j.getObjValAs? String "op"
   match op with
@@ -737,6 +752,7 @@ def handle (j : Json) : Except String Json := do
   | "usm.reset" => usmReset j
   | "usm.incoming.wire" => usmIncomingWire j
   | "usm.params" => usmParams j
+  | "reenc" => reencOp j
   | "key.expand" => pure (toJson (toHex (Usm.expand (← bytesOfJson (← j.getObjVal? "pw")) (← getNat j "n"))))
   | "emit" => emitOp j
   | "conc.run" => concRun j
